@@ -63,7 +63,8 @@ VALUES = {
   "matrix": ([M(1, 2, 3, 4), M(0, 1, 1, 0), M(2, 0, 0, 2), M(1, 1, 0, 1)],
              [M(1, 0, 0, 1), M(1, 1, 1, 1), M(0, -1, 1, 0), M(3, 1, 4, 1)]),
 }
-KINDS_OTHER = ["stream", "list", "tuple", "generator", "scalar", "periodic", "constant"]
+KINDS_OTHER = ["stream", "list", "tuple", "generator", "scalar", "periodic", "constant",
+               "repeat-finite", "stream-of-repeat", "range-like", "deque", "iterator"]
 
 
 def bounds(run):
@@ -108,6 +109,12 @@ def make_other(kind, vals, n):
   if kind == "scalar": return vals[1], vals[1], True
   if kind == "periodic": return Stream(*vals[:2]), [vals[i % 2] for i in range(8)], False
   if kind == "constant": return Stream(vals[2]), [vals[2]] * 8, False
+  # a FINITE constant operand (itertools.repeat with a count): it ends like any other iterable
+  if kind == "repeat-finite": return itertools.repeat(vals[1], n), [vals[1]] * n, False
+  if kind == "stream-of-repeat": return Stream(itertools.repeat(vals[1], n)), [vals[1]] * n, False
+  if kind == "range-like": return (vals[i] for i in range(len(v))), list(v), False
+  if kind == "deque": return deque(v), list(v), False
+  if kind == "iterator": return iter(list(v)), list(v), False
   raise ValueError(kind)
 
 
@@ -124,7 +131,8 @@ def gen_ops(run):
         continue
       for ok in KINDS_OTHER:
         for n in (0, 1, 2, 3):
-          for m in ((0, 1, 2, 3) if ok in ("stream", "list", "tuple", "generator") else (0,)):
+          for m in ((0, 1, 2, 3) if ok in ("stream", "list", "tuple", "generator", "repeat-finite", "stream-of-repeat",
+                                           "range-like", "deque", "iterator") else (0,)):
             for route in ("dunder", "syntax"):
               if route == "syntax" and op.rev and op.symbol == "**" and typ == "Fraction":
                 continue   # Fraction.__pow__ converts itself to float before Python tries __rpow__
@@ -137,7 +145,7 @@ def run_op(case):
   if dname not in vars(Stream) and not hasattr(Stream, dname):
     return bad("op:missing", "operator method not installed on Stream", dname, None)
   mine, theirs = VALUES[typ]
-  nt = op.rev or op.arity == 1 or (ok in ("stream", "list", "tuple", "generator") and n != m)
+  nt = op.rev or op.arity == 1 or (ok not in ("scalar", "periodic", "constant", "none") and n != m)
   if op.arity == 1:
     s = Stream(list(mine[:n]))
     res = getattr(s, dname)() if route == "dunder" else UNARY[op.symbol](s)
@@ -680,6 +688,59 @@ def run_op_long(case):
   return R(None, True, (op.symbol, ok))
 
 
+# --------------------------- operators applied to results that were changed by a Stream method
+OPS1 = OrderedDict([("*2", lambda s: s * 2), ("2*", lambda s: 2 * s), ("neg", lambda s: -s), ("1-", lambda s: 1 - s),
+                    ("+list", lambda s: s + [10, 20, 30, 40, 50, 60, 70, 80]), ("abs", lambda s: abs(s)), ("none", lambda s: s)])
+METHODS = OrderedDict([
+  ("append", (lambda s: s.append([100, 200]), lambda m: m + [100, 200])),
+  ("append-stream", (lambda s: s.append(Stream([7]), [8]), lambda m: m + [7, 8])),
+  ("limit", (lambda s: s.limit(3), lambda m: m[:3])),
+  ("skip", (lambda s: s.skip(2), lambda m: m[2:])),
+  ("map", (lambda s: s.map(lambda v: v + 1000), lambda m: [v + 1000 for v in m])),
+  ("filter", (lambda s: s.filter(lambda v: v % 2 == 0), lambda m: [v for v in m if v % 2 == 0])),
+  ("take1", (lambda s: (s.take(1), s)[1], lambda m: m[1:])),
+  ("peek2", (lambda s: (s.peek(2), s)[1], lambda m: m)),
+  ("copy", (lambda s: s.copy(), lambda m: m)),
+  ("copy-keep-original", (lambda s: (s.copy(), s)[1], lambda m: m)),
+  ("none", (lambda s: s, lambda m: m)),
+])
+
+
+def gen_op_method(run):
+  for o1 in OPS1:
+    for m1 in METHODS:
+      for o2 in OPS1:
+        for m2 in ("none", "append", "limit", "copy"):
+          for o3 in ("none", "*2", "1-"):
+            yield (o1, m1, o2, m2, o3)
+
+
+def run_op_method(case):
+  """op(method(op(stream))): an operator result is an ordinary Stream - whatever a method did to it
+  (append, limit, skip, map, ...) is seen by the next operator."""
+  base = [3, -1, 4, 1, -5, 9]
+  model, real = list(base), Stream(list(base))
+  trace = []
+  try:
+    for name in case:
+      if name in OPS1 and name not in ("none",) and (len(trace) % 2 == 0):
+        f = OPS1[name]
+        real = f(real)
+        model = list(f(Stream(list(model))))           # one operator on a fresh Stream: decided by the ops kind
+      elif name in METHODS and len(trace) % 2 == 1:
+        fr_, fm = METHODS[name]
+        real = fr_(real)
+        model = fm(model)
+      trace.append(name)
+    got = list(real)
+  except Exception as exc:
+    return bad("op-method:exception:" + type(exc).__name__, "expression raised", {"steps": list(case)}, str(exc)[:200], True)
+  if got != model or any(type(a) is not type(b) for a, b in zip(got, model)):
+    return bad("op-method:value", "an operator applied to a Stream that a method changed must see the changed Stream",
+               {"steps": list(case), "items": model}, got, True)
+  return R(None, True, (case[1], case[3]))
+
+
 KINDS = OrderedDict([
   ("table", Kind(gen_table, run_table, rule="operator table: 35 methods, all installed on Stream")),
   ("ops", Kind(gen_ops, run_op, chunk=500, rule="operator x route x other kind x lengths x element type")),
@@ -689,4 +750,5 @@ KINDS = OrderedDict([
   ("functions", Kind(gen_funcs, run_func, chunk=20, rule="broadcast function x container kind x route")),
   ("secondary", Kind(gen_secondary, run_secondary, chunk=8, rule="secondary parameters and the elementwise decorator itself")),
   ("ops-long", Kind(gen_ops_long, run_op_long, chunk=20, rule="every operator x other kind on operands of 300 / 257 vs 64 / 65 vs 1000 elements")),
+  ("op-method", Kind(gen_op_method, run_op_method, chunk=200, rule="operator, Stream method, operator, method, operator: all combinations of the menus")),
 ])
